@@ -984,7 +984,7 @@ class DynamicVector : public DynamicVectorBaseTypeDispatcher<T, Alloc, SizeType,
   }
 
   template <class OAlloc, class OSizeType, bool OWithInlineElems>
-  void swap2_impl(DynamicVector<T, OAlloc, OSizeType, OWithInlineElems> &o) noexcept(is_swap_noexcept<T>::value) {
+  void swap2_impl(DynamicVector<T, OAlloc, OSizeType, OWithInlineElems> &o) {
     if (this->canSwapDynStorage(o)) {
       // Both vectors use a dynamic storage. Take the references on their sizes before any modification (which size
       // word is the 'real' one depends on the capacity for a SmallVector), then exchange capacities first: it throws
